@@ -1189,7 +1189,7 @@ def check_constants(ctx):
 
 
 def run(ctx):
-    ctx.lean_stage()
+    ctx.lean_stage(extra_props=("Compose",))   # + PrecondVerif.ComposeProps.C14.* (sharded resume = C14 x C07, Props/Compose.lean)
     check_constants(ctx)
     cases = corpus_cases() + gen_cases(ctx.tier, ctx.seed)
     only = os.environ.get("VERIF_C14_ONLY")   # development aid (mutation self-tests): e.g. "sm3,tf.SKETCHY"
